@@ -241,8 +241,35 @@ class Token(TokenT):
 PathT: TypeAlias = list[Union[int, str, "PathToken"]]
 
 
+# Words that are not read back as a variable or name when they stand alone.
+RESERVED_WORDS = frozenset(
+    [
+        "true",
+        "false",
+        "and",
+        "or",
+        "in",
+        "not",
+        "contains",
+        "nil",
+        "null",
+        "if",
+        "else",
+        "with",
+        "required",
+        "as",
+        "for",
+        "empty",
+        "blank",
+    ]
+)
+
+
 def _quote(segment: str) -> str:
     """Return a quoted path segment. Segments hold source text, still escaped."""
+    if '\\"' in segment:
+        # Only a double quoted segment can contain an escaped double quote.
+        return f'"{segment}"'
     return "'" + segment.replace("'", "\\'") + "'"
 
 RE_PROPERTY = re.compile(r"[\u0080-\uFFFFa-zA-Z_][\u0080-\uFFFFa-zA-Z0-9_-]*")
@@ -260,7 +287,10 @@ class PathToken(TokenT):
     def __str__(self) -> str:
         it = iter(self.path)
         root = next(it)
-        if isinstance(root, str) and not RE_PROPERTY.fullmatch(root):
+        if isinstance(root, str) and (
+            not RE_PROPERTY.fullmatch(root)
+            or (len(self.path) == 1 and root in RESERVED_WORDS)
+        ):
             buf = [f"[{_quote(root)}]"]
         elif isinstance(root, PathToken):
             buf = [f"[{root}]"]
